@@ -33,6 +33,7 @@ NONTRIVIAL = {
     "c08": lambda i: isinstance(i, dict) and sum(len(f.get("msgs") or []) for f in i.get("files", [])) > 0,
     "c09": lambda i: isinstance(i, dict) and sum(len(f.get("msgs") or []) for f in i.get("files", [])) > 0,
     "c07": lambda i: isinstance(i, dict) and len(i.get("walks") or []) > 1,
+    "c05": lambda i: isinstance(i, dict) and len(i.get("queries") or []) > 1,
     "c15": lambda i: isinstance(i, dict) and len(i.get("name") or []) > 1,
 }
 
@@ -162,5 +163,13 @@ PROPS = {
         "rule": "the C01 worlds x per world: every package with an always-descend visitor + 6 random start nodes (files, messages, enums, services, leaves; never inside a map entry) x random policies assigning same / replacement visitor / prune / (nil, err) / (v, err) to 0-40% of the entities, also through PassThroughVisitor and NilVisitor; the callback trace records (entity by descriptor identity, visitor id) and the returned error; non-trivial = at least 2 walks",
         "level_text": "THEOREMS PENDING (level exploration until proved): executable Lean transcription of the ten accept methods compared with pgs.Walk; Phi_C07 = the trace equals the declarative pruned walk over the containment pre-order (kind order, declaration order, no map entries, contiguous subtrees, visitor handed down, prune skips exactly the contents, first error stops and is returned), evaluated on every observed trace.",
         "level_note": "Trusted: protodesc validity of the worlds; descriptor pointer identity; visitors are modelled by their answers (policy), which covers stateful and replacement visitors.",
+    },
+    "C05": {
+        "engines": [("c05", "main")],
+        "lean": ["PgsVerif.Props.C05"],
+        "category": "exploration",
+        "rule": "ALL digraphs with self loops on 1-3 message nodes (stride-sampled on 4 in the thorough tier) embedded in valid bidirectionally built requests (edge = singular / repeated / map-value message field, nodes partly nested under holders sharing the simple name 'Item', an enum used by 1-2 nodes) x ALL orders of asking the nodes (dependents/dependencies interleaved or phased, the enum asked at every position); seeded random graphs up to 12 nodes with long cycles and random query histories with repetitions; the general world generator in bidirectional mode with up to 40 shuffled queries; non-trivial = at least 2 queries",
+        "level_text": "THEOREMS PENDING (level exploration until proved): executable Lean model of assignDependent's edges, the visited-set traversal and the per-entity caches compared with the real accessors under every generated query history; Phi_C05 = every answer is exactly the reachability closure computed by saturation from the descriptor-level edge relation, evaluated on every observed answer. Planned theorem: dfs = reachability for every graph and every cache history (core lemma already proved in a probe).",
+        "level_note": "Trusted: protodesc validity; descriptor pointer identity; Go map iteration order (answers compared as sets, duplicates flagged).",
     },
 }
